@@ -7,7 +7,7 @@ from hypothesis import strategies as st
 
 from .. import hist, wire
 from ..engine import ok, require
-from ..simkit import ADDRS, HarnessError, ServerRec, Sim, cfg, desc_semantic, install_random, lib_option, make_sd, sd, sd_bytes, sent_entries, timings
+from ..simkit import ADDRS, HarnessError, ServerRec, Sim, cfg, desc_semantic, install_random, late, lib_option, make_sd, sd, sd_bytes, sent_entries, timings
 from ..vloop import RES
 from .c10 import OPTS, _timing
 
@@ -66,7 +66,7 @@ def _case(draw):
         op = draw(st.sampled_from(["find"] * 6 + ["stop", "start", "wait"]))
         steps.append(draw(_find()) if op == "find" else {"op": op, "when": draw(when_st)})
     return {"tm": draw(_timing()), "n": draw(st.integers(1, 3)), "fr": draw(st.lists(st.sampled_from([0.0, 0.25, 0.5, 1.0]), min_size=1, max_size=4)), "steps": steps,
-            "opts": draw(st.integers(0, len(OPTSETS) - 1)), "decoy": draw(st.booleans())}
+            "opts": draw(st.integers(0, len(OPTSETS) - 1)), "decoy": draw(st.booleans()), "late": draw(st.booleans())}
 
 
 def strategy(tier):
@@ -148,6 +148,7 @@ def run_case(case):
                      CYCLIC_OFFER_DELAY=t["cyc"], ANNOUNCE_TTL=t["ttl"], SEND_COLLECTION_TIMEOUT=t["coll"],
                      REQUEST_RESPONSE_DELAY_MIN=t["rmin"], REQUEST_RESPONSE_DELAY_MAX=t["rmax"])
         tm_prot = tm_inst = tm
+        tm_inst_same = not case.get("decoy")
         if case.get("decoy"):
             # separate Timings objects for the protocol and the instances; the parameters of the other role are set apart
             tm_prot = timings(INITIAL_DELAY_MIN=0.013, INITIAL_DELAY_MAX=0.017, REPETITIONS_MAX=5, REPETITIONS_BASE_DELAY=0.011,
@@ -157,6 +158,9 @@ def run_case(case):
                               CYCLIC_OFFER_DELAY=t["cyc"], ANNOUNCE_TTL=t["ttl"], SEND_COLLECTION_TIMEOUT=0.033,
                               REQUEST_RESPONSE_DELAY_MIN=0.041, REQUEST_RESPONSE_DELAY_MAX=0.043)
         OPTS_ = OPTSETS[case.get("opts", 0) % len(OPTSETS)]
+        # timings given to the constructors or assigned to the objects' Timings afterwards (before anything is started)
+        tm_prot, apply_p = late(tm_prot, bool(case.get("late")))
+        tm_inst, apply_i = (tm_prot, apply_p) if tm_inst_same else late(tm_inst, bool(case.get("late")))
         prot = make_sd(sim, tm_prot)
         ann = prot.announcer
         runs = {i: [] for i in range(n)}
@@ -179,6 +183,8 @@ def run_case(case):
             o1, o2 = OPTS_[i]
             svc = cfg.Service(sid, iid, maj, minor, options_1=tuple(lib_option(o) for o in o1), options_2=tuple(lib_option(o) for o in o2))
             ann.announce_service(sd.ServiceInstance(svc, ServerRec(sim, [], f"I{i}"), ann, tm_inst))
+        apply_p()
+        apply_i()
         started = [False]
         finds = []
 
